@@ -121,8 +121,8 @@ theorem scaled_nonneg_down (v : Option IntOrPct) (R : Int) (hv : fenceOk v = tru
 
 theorem fenceposts_nonneg (s : State) (h : inv s = true) {a u : Int}
     (hr : resolveFenceposts s.maxSurge s.maxUnavailable s.replicas = some (a, u)) : 0 ≤ a ∧ 0 ≤ u := by
-  simp only [inv, Bool.and_eq_true, decide_eq_true_eq] at h
-  obtain ⟨⟨⟨⟨hR, hs⟩, hu⟩, _⟩, _⟩ := h
+  simp only [inv, invCore, Bool.and_eq_true, decide_eq_true_eq] at h
+  obtain ⟨⟨⟨⟨⟨hR, hs⟩, hu⟩, _⟩, _⟩, _⟩ := h
   have h1 := scaled_nonneg_up s.maxSurge s.replicas hs hR
   have h2 := scaled_nonneg_down s.maxUnavailable s.replicas hu hR
   unfold resolveFenceposts at hr
@@ -147,7 +147,7 @@ theorem maxSurgeV_nonneg (s : State) (h : inv s = true) : 0 ≤ maxSurgeV s := b
 
 theorem maxUnavailV_bounds (s : State) (h : inv s = true) : 0 ≤ maxUnavailV s ∧ maxUnavailV s ≤ s.replicas := by
   have hR : 0 ≤ s.replicas := by
-    simp only [inv, Bool.and_eq_true, decide_eq_true_eq] at h; exact h.1.1.1.1
+    simp only [inv, invCore, Bool.and_eq_true, decide_eq_true_eq] at h; exact h.1.1.1.1.1
   unfold maxUnavailV
   split
   · omega
@@ -159,15 +159,15 @@ theorem maxUnavailV_bounds (s : State) (h : inv s = true) : 0 ≤ maxUnavailV s 
       split <;> omega
 
 theorem inv_replicas (s : State) (h : inv s = true) : 0 ≤ s.replicas := by
-  simp only [inv, Bool.and_eq_true, decide_eq_true_eq] at h; exact h.1.1.1.1
+  simp only [inv, invCore, Bool.and_eq_true, decide_eq_true_eq] at h; exact h.1.1.1.1.1
 
 theorem inv_olds (s : State) (h : inv s = true) : ∀ r ∈ s.olds, rsOk r = true := by
-  simp only [inv, Bool.and_eq_true, List.all_eq_true] at h; exact h.1.2
+  simp only [inv, invCore, Bool.and_eq_true, List.all_eq_true] at h; exact h.1.1.2
 
 theorem inv_new (s : State) (h : inv s = true) : ∀ r, s.new = some r → rsOk r = true := by
-  simp only [inv, Bool.and_eq_true] at h
+  simp only [inv, invCore, Bool.and_eq_true] at h
   intro r hr
-  have := h.2
+  have := h.1.2
   simp [hr] at this; exact this
 
 theorem rsOk_iff (r : RS) : rsOk r = true ↔ 0 ≤ r.spec ∧ 0 ≤ r.avail ∧ r.avail ≤ r.pods := by
@@ -781,5 +781,634 @@ theorem created_LB (s : State) (h : inv s = true) :
     rw [newRSNewReplicas_default s _ _ hc]
     simp only [hz, if_false]
     omega
+
+
+/-! ### predicates preserved by every scale write (annotations) -/
+
+/-- `P` survives a scale write whatever the new size -/
+def WriteStable (s : State) (P : RS → Prop) : Prop :=
+  ∀ r n, P r → P { r with spec := n, desired := some s.replicas, maxAnno := some (s.replicas + maxSurgeV s) }
+
+theorem scaleAndRecord_stable {s : State} {P : RS → Prop} (hP : WriteStable s P) (r : RS) (n : Int)
+    (h : P r) : P (scaleAndRecord s r n).1 := by
+  rcases scaleAndRecord_fst s r n with e | e <;> rw [e]
+  · exact h
+  · exact hP r n h
+
+theorem scaleReplicaSet_stable {s : State} {P : RS → Prop} (hP : WriteStable s P) (r : RS) (n : Int)
+    (h : P r) : P (scaleReplicaSet s r n).1 := by
+  unfold scaleReplicaSet
+  simp only []
+  split
+  · exact hP r n h
+  · exact h
+
+theorem annoOk_stable (s : State) (h : 0 ≤ s.replicas + maxSurgeV s) :
+    WriteStable s (fun r => annoOk r = true) := by
+  intro r n _; simp [annoOk, h]
+
+theorem cleanupLoop_all (s : State) (P : RS → Prop) (hP : WriteStable s P) (m : Int) :
+    ∀ (l : List RS) (total : Int), (∀ r ∈ l, P r) → ∀ r ∈ (cleanupLoop s m l total).olds, P r := by
+  intro l
+  induction l with
+  | nil => intro total _ r hr; simp [cleanupLoop] at hr
+  | cons x rest ih =>
+    intro total h
+    have hx := h x (by simp)
+    have hrest : ∀ r ∈ rest, P r := fun r hr => h r (by simp [hr])
+    have step : ∀ (y : RS) (t : Int), P y → ∀ r ∈ y :: (cleanupLoop s m rest t).olds, P r := by
+      intro y t hy r hr
+      simp only [List.mem_cons] at hr
+      rcases hr with hr | hr
+      · rw [hr]; exact hy
+      · exact ih t hrest r hr
+    simp only [cleanupLoop]
+    split
+    · exact h
+    · split
+      · exact step x total hx
+      · split
+        · exact step x total hx
+        · split
+          · exact h
+          · exact step _ _ (scaleAndRecord_stable hP x _ hx)
+
+theorem scaleDownLoop_all (s : State) (P : RS → Prop) (hP : WriteStable s P) (c : Int) :
+    ∀ (l : List RS) (total : Int), (∀ r ∈ l, P r) → ∀ r ∈ (scaleDownLoop s c l total).olds, P r := by
+  intro l
+  induction l with
+  | nil => intro total _ r hr; simp [scaleDownLoop] at hr
+  | cons x rest ih =>
+    intro total h
+    have hx := h x (by simp)
+    have hrest : ∀ r ∈ rest, P r := fun r hr => h r (by simp [hr])
+    have step : ∀ (y : RS) (t : Int), P y → ∀ r ∈ y :: (scaleDownLoop s c rest t).olds, P r := by
+      intro y t hy r hr
+      simp only [List.mem_cons] at hr
+      rcases hr with hr | hr
+      · rw [hr]; exact hy
+      · exact ih t hrest r hr
+    simp only [scaleDownLoop]
+    split
+    · exact h
+    · split
+      · exact step x total hx
+      · split
+        · exact h
+        · exact step _ _ (scaleAndRecord_stable hP x _ hx)
+
+theorem append_all {P : RS → Prop} {l₁ l₂ : List RS} (h₁ : ∀ r ∈ l₁, P r) (h₂ : ∀ r ∈ l₂, P r) :
+    ∀ r ∈ l₁ ++ l₂, P r := by
+  intro r hr
+  rcases List.mem_append.mp hr with h | h
+  · exact h₁ r h
+  · exact h₂ r h
+
+theorem cleanup_all (s : State) (P : RS → Prop) (hP : WriteStable s P) (l : List RS) (m : Int)
+    (h : ∀ r ∈ l, P r) : ∀ r ∈ (cleanup s l m).olds, P r :=
+  cleanupLoop_all s P hP m _ 0 (all_sortBy h)
+
+theorem scaleDownOld_all (s : State) (P : RS → Prop) (hP : WriteStable s P) (l : List RS) (nw : RS)
+    (h : ∀ r ∈ l, P r) : ∀ r ∈ (scaleDownOld s l nw).olds, P r := by
+  unfold scaleDownOld
+  simp only []
+  split
+  · exact h
+  · exact scaleDownLoop_all s P hP _ _ 0 (all_sortBy h)
+
+theorem scaleUpOld_all (s : State) (P : RS → Prop) (hP : WriteStable s P) (l : List RS) (n : Int)
+    (h : ∀ r ∈ l, P r) : ∀ r ∈ (scaleUpOld s l n).2.1, P r := by
+  unfold scaleUpOld
+  split
+  · exact h
+  · split
+    · exact h
+    · rename_i r rest heq
+      have hs : ∀ x ∈ r :: rest, P x := by rw [← heq]; exact all_sortBy h
+      intro x hx
+      simp only [List.mem_cons] at hx
+      rcases hx with hx | hx
+      · rw [hx]; exact scaleAndRecord_stable hP r _ (hs r (by simp))
+      · exact hs x (by simp [hx])
+
+theorem reconcileOld_all (s : State) (P : RS → Prop) (hP : WriteStable s P) (l : List RS) (nw : RS)
+    (h : ∀ r ∈ l, P r) : ∀ r ∈ (reconcileOld s l nw).2.1, P r := by
+  have ha : ∀ r ∈ active l, P r := fun r hr => h r (mem_active hr)
+  have hi : ∀ r ∈ inactive l, P r := fun r hr => h r (mem_inactive hr)
+  unfold reconcileOld
+  simp only []
+  split
+  · exact h
+  · split
+    · exact append_all (scaleUpOld_all s P hP _ _ ha) hi
+    · split
+      · exact h
+      · split
+        · exact append_all (cleanup_all s P hP _ _ ha) hi
+        · split
+          · exact append_all (scaleDownOld_all s P hP _ _ (cleanup_all s P hP _ _ ha)) hi
+          · exact append_all (scaleDownOld_all s P hP _ _ (cleanup_all s P hP _ _ ha)) hi
+
+/-- annotations and status after a rolling sync -/
+theorem rolling_anno (s : State) (h0 : 0 ≤ s.replicas + maxSurgeV s)
+    (holds : ∀ r ∈ s.olds, annoOk r = true) (hnew : ∀ r, s.new = some r → annoOk r = true) :
+    (∀ r ∈ (rolloutRolling s).olds, annoOk r = true) ∧
+    (∀ r, (rolloutRolling s).new = some r → annoOk r = true) ∧
+    (rolloutRolling s).statusReplicas = sumPods s.olds + optPods s.new := by
+  have hP := annoOk_stable s h0
+  have hnw : ∃ nw w, getNewRS s true = (some nw, w) ∧ annoOk nw = true ∧ nw.pods = optPods s.new := by
+    unfold getNewRS
+    cases hn : s.new with
+    | none => exact ⟨_, _, rfl, by simp [annoOk, h0], by simp [optPods]⟩
+    | some r => exact ⟨_, _, rfl, by have := hnew r hn; simpa [annoOk] using this, by simp [optPods]⟩
+  obtain ⟨nw, w, hg, ha, hp⟩ := hnw
+  unfold rolloutRolling
+  rw [hg]
+  simp only []
+  split
+  · refine ⟨holds, ?_, by rw [hp]⟩
+    intro r hr
+    simp only [Option.some.injEq] at hr
+    rw [← hr]
+    unfold reconcileNew
+    split
+    · exact ha
+    · split
+      · exact scaleAndRecord_stable hP nw _ ha
+      · exact scaleAndRecord_stable hP nw _ ha
+  · refine ⟨reconcileOld_all s _ hP _ _ holds, ?_, by rw [hp]⟩
+    intro r hr
+    simp only [Option.some.injEq] at hr
+    rw [← hr]; exact ha
+
+
+theorem inv_intro (s : State) (h1 : 0 ≤ s.replicas) (h2 : fenceOk s.maxSurge = true)
+    (h3 : fenceOk s.maxUnavailable = true) (h4 : ∀ r ∈ s.olds, rsOk r = true)
+    (h5 : ∀ r, s.new = some r → rsOk r = true) (h6 : 0 ≤ s.statusReplicas)
+    (h7 : ∀ r ∈ s.olds, annoOk r = true) (h8 : ∀ r, s.new = some r → annoOk r = true) : inv s = true := by
+  simp only [inv, invCore, invAnno, Bool.and_eq_true, decide_eq_true_eq, List.all_eq_true]
+  refine ⟨⟨⟨⟨⟨h1, h2⟩, h3⟩, h4⟩, ?_⟩, ⟨⟨h6, h7⟩, ?_⟩⟩
+  · cases hn : s.new with
+    | none => rfl
+    | some r => simpa using h5 r hn
+  · cases hn : s.new with
+    | none => rfl
+    | some r => simpa using h8 r hn
+
+theorem inv_elim (s : State) (h : inv s = true) :
+    0 ≤ s.replicas ∧ fenceOk s.maxSurge = true ∧ fenceOk s.maxUnavailable = true ∧
+    (∀ r ∈ s.olds, rsOk r = true) ∧ (∀ r, s.new = some r → rsOk r = true) ∧ 0 ≤ s.statusReplicas ∧
+    (∀ r ∈ s.olds, annoOk r = true) ∧ (∀ r, s.new = some r → annoOk r = true) := by
+  have h' := h
+  simp only [inv, invCore, invAnno, Bool.and_eq_true, decide_eq_true_eq, List.all_eq_true] at h'
+  obtain ⟨⟨⟨⟨⟨h1, h2⟩, h3⟩, h4⟩, h5⟩, ⟨⟨h6, h7⟩, h8⟩⟩ := h'
+  refine ⟨h1, h2, h3, h4, inv_new s h, h6, h7, ?_⟩
+  intro r hr; simpa [hr] using h8
+
+theorem sumPods_nonneg {l : List RS} (h : ∀ r ∈ l, rsOk r = true) : 0 ≤ sumPods l :=
+  sumBy_nonneg _ l (fun r hr => by have := (rsOk_iff r).mp (h r hr); omega)
+
+/-- `I` is preserved by a sync on the rolling path -/
+theorem inv_post_rolling (s : State) (h : inv s = true) (hsc : inScope s = true) : inv (post s) = true := by
+  obtain ⟨h1, h2, h3, h4, h5, h6, h7, h8⟩ := inv_elim s h
+  have hs0 := maxSurgeV_nonneg s h
+  obtain ⟨a1, a2, a3⟩ := rolling_anno s (by omega) h7 h8
+  obtain ⟨nw, e1, e2, hc⟩ := post_summary s hsc
+  have hl := limit_bounds s h1
+  have cs := created_size s h
+  have tg := newTarget_ge s (sumSpec s.olds) nw.spec hl.2
+  have hnw : rsOk nw = true := by
+    rw [rsOk_iff]
+    cases hn : s.new with
+    | none => have := e2 hn; omega
+    | some r => have := e1 r hn; have := (rsOk_iff r).mp (h5 r hn); omega
+  have hnw' := (rsOk_iff nw).mp hnw
+  have hpost : (post s).olds = (rolloutRolling s).olds ∧ (post s).new = (rolloutRolling s).new ∧
+      (post s).statusReplicas = (rolloutRolling s).statusReplicas := by
+    simp only [post, sync_inScope s hsc]; exact ⟨trivial, trivial, trivial⟩
+  apply inv_intro
+  · exact h1
+  · exact h2
+  · exact h3
+  · rcases hc with ⟨rn, _, ho, _⟩ | ⟨_, ho, _⟩
+    · rw [ho]; exact h4
+    · rw [ho]; exact reconcileOld_ok s _ _ h4
+  · intro r hr
+    rcases hc with ⟨rn, hn, _, hs, ha, hp, _⟩ | ⟨hn, _, _⟩
+    · rw [hn] at hr; cases hr
+      rw [rsOk_iff]; omega
+    · rw [hn] at hr; cases hr; exact hnw
+  · rw [hpost.2.2, a3]
+    have := sumPods_nonneg h4
+    cases hn : s.new with
+    | none => simp only [optPods]; omega
+    | some r => have := (rsOk_iff r).mp (h5 r hn); simp only [optPods]; omega
+  · rw [hpost.1]; exact a1
+  · rw [hpost.2.1]; exact a2
+
+
+/-! ### the scaling path preserves `I` -/
+
+/-- per-RS part of the invariant -/
+def Q (r : RS) : Prop := rsOk r = true ∧ annoOk r = true
+
+theorem Q_write (s : State) (h0 : 0 ≤ s.replicas + maxSurgeV s) (r : RS) (n : Int) (hn : 0 ≤ n) (h : Q r) :
+    Q { r with spec := n, desired := some s.replicas, maxAnno := some (s.replicas + maxSurgeV s) } := by
+  obtain ⟨h1, _⟩ := h
+  rw [rsOk_iff] at h1
+  constructor
+  · rw [rsOk_iff]; simp only []; omega
+  · simp [annoOk, h0]
+
+theorem Q_scaleAndRecord (s : State) (h0 : 0 ≤ s.replicas + maxSurgeV s) (r : RS) (n : Int) (hn : 0 ≤ n)
+    (h : Q r) : Q (scaleAndRecord s r n).1 := by
+  rcases scaleAndRecord_fst s r n with e | e <;> rw [e]
+  · exact h
+  · exact Q_write s h0 r n hn h
+
+theorem Q_scaleReplicaSet (s : State) (h0 : 0 ≤ s.replicas + maxSurgeV s) (r : RS) (n : Int) (hn : 0 ≤ n)
+    (h : Q r) : Q (scaleReplicaSet s r n).1 := by
+  unfold scaleReplicaSet
+  simp only []
+  split
+  · exact Q_write s h0 r n hn h
+  · exact h
+
+theorem roundDiv_nonneg (a b : Int) (ha : 0 ≤ a) (hb : 0 < b) : 0 ≤ roundDiv a b := by
+  unfold roundDiv
+  have h1 : decide (a < 0) = false := by simp; omega
+  have h2 : decide (b < 0) = false := by simp; omega
+  simp only [h1, h2, bne_self_eq_false, Bool.false_eq_true, if_false]
+  exact Int.natCast_nonneg _
+
+theorem rsFraction_nonneg (s : State) (r : RS) (f : Int) (hR : 0 ≤ s.replicas) (hs : 0 ≤ maxSurgeV s)
+    (hst : 0 ≤ s.statusReplicas) (hq : Q r) (h : rsFraction s r = some f) : 0 ≤ r.spec + f := by
+  have hr := (rsOk_iff r).mp hq.1
+  unfold rsFraction at h
+  by_cases hz : (s.replicas == 0) = true
+  · simp only [hz, if_true, Option.some.injEq] at h; omega
+  · simp only [hz, Bool.false_eq_true, if_false] at h
+    have key : ∀ b : Int, 0 ≤ b →
+        (if (b == 0) = true then none else some (roundDiv (r.spec * (s.replicas + maxSurgeV s)) b - r.spec)) = some f →
+        0 ≤ r.spec + f := by
+      intro b hge hh
+      by_cases hb0 : (b == 0) = true
+      · simp [hb0] at hh
+      · simp only [hb0, Bool.false_eq_true, if_false, Option.some.injEq] at hh
+        have hbne : b ≠ 0 := by simpa using hb0
+        have := roundDiv_nonneg (r.spec * (s.replicas + maxSurgeV s)) b (Int.mul_nonneg hr.1 (by omega)) (by omega)
+        omega
+    cases hm : r.maxAnno with
+    | none => rw [hm] at h; exact key _ hst h
+    | some m =>
+      rw [hm] at h
+      have := hq.2; simp [annoOk, hm] at this
+      exact key m this h
+
+theorem proportionLoop_plan (s : State) (toAdd : Int) (hR : 0 ≤ s.replicas) (hs : 0 ≤ maxSurgeV s)
+    (hst : 0 ≤ s.statusReplicas) :
+    ∀ (l : List RS) (added : Int) (plan : List (RS × Int)) (a : Int),
+      (∀ r ∈ l, Q r) → (0 < toAdd → added ≤ toAdd) →
+      proportionLoop s toAdd l added = some (plan, a) → ∀ p ∈ plan, Q p.1 ∧ 0 ≤ p.2 := by
+  intro l
+  induction l with
+  | nil =>
+    intro added plan a _ _ h p hp
+    simp only [proportionLoop, Option.some.injEq, Prod.mk.injEq] at h
+    rw [← h.1] at hp; simp at hp
+  | cons r rest ih =>
+    intro added plan a hq hadd h
+    have hr := hq r (by simp)
+    have hrest : ∀ x ∈ rest, Q x := fun x hx => hq x (by simp [hx])
+    have hspec := ((rsOk_iff r).mp hr.1).1
+    simp only [proportionLoop] at h
+    split at h
+    · -- toAdd ≠ 0
+      rename_i hne
+      split at h
+      · cases h
+      · rename_i p hp
+        split at h
+        · cases h
+        · rename_i l' a' hrec
+          simp only [Option.some.injEq, Prod.mk.injEq] at h
+          have hsize : 0 ≤ r.spec + p ∧ (0 < toAdd → added + p ≤ toAdd) := by
+            unfold getProportion at hp
+            split at hp
+            · cases hp; constructor
+              · omega
+              · intro h'; have := hadd h'; omega
+            · split at hp
+              · cases hp
+              · rename_i f hf
+                have hfn := rsFraction_nonneg s r f hR hs hst hr hf
+                simp only [] at hp
+                split at hp
+                · rename_i hpos
+                  cases hp
+                  have := hadd hpos
+                  constructor
+                  · omega
+                  · intro _; omega
+                · rename_i hnpos
+                  cases hp
+                  constructor
+                  · omega
+                  · intro h'; exact absurd h' hnpos
+          intro q hqm
+          rw [← h.1] at hqm
+          simp only [List.mem_cons] at hqm
+          rcases hqm with e | e
+          · rw [e]; exact ⟨hr, hsize.1⟩
+          · exact ih (added + p) l' a' hrest hsize.2 hrec q e
+    · split at h
+      · cases h
+      · rename_i l' a' hrec
+        simp only [Option.some.injEq, Prod.mk.injEq] at h
+        intro q hqm
+        rw [← h.1] at hqm
+        simp only [List.mem_cons] at hqm
+        rcases hqm with e | e
+        · rw [e]; exact ⟨hr, hspec⟩
+        · exact ih added l' a' hrest hadd hrec q e
+
+theorem updateLoop_Q (s : State) (h0 : 0 ≤ s.replicas + maxSurgeV s) :
+    ∀ (plan : List (RS × Int)), (∀ p ∈ plan, Q p.1 ∧ 0 ≤ p.2) → ∀ r ∈ (updateLoop s plan).1, Q r := by
+  intro plan
+  induction plan with
+  | nil => intro _ r hr; simp [updateLoop] at hr
+  | cons p rest ih =>
+    intro h r hr
+    obtain ⟨x, n⟩ := p
+    have hp := h (x, n) (by simp)
+    simp only [updateLoop, List.mem_cons] at hr
+    rcases hr with e | e
+    · rw [e]; exact Q_scaleReplicaSet s h0 x n hp.2 hp.1
+    · exact ih (fun q hq => h q (by simp [hq])) r e
+
+theorem splitNew_mem (l : List RS) :
+    (∀ r, (splitNew l).1 = some r → r ∈ l) ∧ (∀ r ∈ (splitNew l).2, r ∈ l) := by
+  induction l with
+  | nil => simp [splitNew]
+  | cons x rest ih =>
+    simp only [splitNew]
+    split
+    · constructor
+      · intro r hr; simp only [Option.some.injEq] at hr; simp [hr]
+      · intro r hr; simp [ih.2 r hr]
+    · constructor
+      · intro r hr; simp [ih.1 r hr]
+      · intro r hr
+        simp only [List.mem_cons] at hr
+        rcases hr with e | e
+        · simp [e]
+        · simp [ih.2 r e]
+
+theorem scaleAllTo_Q (s : State) (h0 : 0 ≤ s.replicas + maxSurgeV s) (n : Int) (hn : 0 ≤ n) :
+    ∀ (l : List RS), (∀ r ∈ l, Q r) → ∀ r ∈ (scaleAllTo s n l).1, Q r := by
+  intro l
+  induction l with
+  | nil => intro _ r hr; simp [scaleAllTo] at hr
+  | cons x rest ih =>
+    intro h r hr
+    simp only [scaleAllTo, List.mem_cons] at hr
+    rcases hr with e | e
+    · rw [e]; exact Q_scaleAndRecord s h0 x n hn (h x (by simp))
+    · exact ih (fun q hq => h q (by simp [hq])) r e
+
+theorem replaceIdx_Q (r' : RS) (h' : Q r') : ∀ (l : List RS), (∀ r ∈ l, Q r) → ∀ r ∈ replaceIdx r' l, Q r := by
+  intro l
+  induction l with
+  | nil => intro _ r hr; simp [replaceIdx] at hr
+  | cons x rest ih =>
+    intro h r hr
+    simp only [replaceIdx] at hr
+    split at hr
+    · simp only [List.mem_cons] at hr
+      rcases hr with e | e
+      · rw [e]; exact h'
+      · exact h r (by simp [e])
+    · simp only [List.mem_cons] at hr
+      rcases hr with e | e
+      · rw [e]; exact h x (by simp)
+      · exact ih (fun q hq => h q (by simp [hq])) r e
+
+theorem findActiveOrLatest_mem (nw : Option RS) (olds : List RS) (r : RS)
+    (h : findActiveOrLatest nw olds = some r) : r ∈ olds ∨ nw = some r := by
+  unfold findActiveOrLatest at h
+  split at h
+  · cases h
+  · simp only [] at h
+    have hsub : ∀ x ∈ active (sortBy byCreationDesc olds ++ nw.toList), x ∈ olds ∨ nw = some x := by
+      intro x hx
+      have := mem_active hx
+      rcases List.mem_append.mp this with e | e
+      · left; exact mem_sortBy.mp e
+      · right
+        cases nw with
+        | none => simp at e
+        | some y => simp at e; rw [e]
+    split at h
+    · split at h
+      · right; rw [h]
+      · left
+        have := List.mem_of_mem_head? h
+        exact mem_sortBy.mp this
+    · rename_i x heq
+      cases h
+      exact hsub r (by rw [heq]; simp)
+    · cases h
+
+
+theorem Q_of (r : RS) (h1 : rsOk r = true) (h2 : annoOk r = true) : Q r := ⟨h1, h2⟩
+
+theorem cleanup_Q (s : State) (h0 : 0 ≤ s.replicas + maxSurgeV s) (l : List RS) (m : Int)
+    (h : ∀ r ∈ l, Q r) : ∀ r ∈ (cleanup s l m).olds, Q r := by
+  intro r hr
+  exact ⟨cleanup_ok s l m (fun x hx => (h x hx).1) r hr,
+         cleanup_all s _ (annoOk_stable s h0) l m (fun x hx => (h x hx).2) r hr⟩
+
+theorem toList_Q {nw : Option RS} (hn : ∀ r, nw = some r → Q r) : ∀ r ∈ nw.toList, Q r := by
+  intro r hr
+  cases nw with
+  | none => simp at hr
+  | some x => simp at hr; exact hn r (by rw [hr])
+
+theorem distribute_Q (s : State) (hR : 0 ≤ s.replicas) (hs : 0 ≤ maxSurgeV s) (hst : 0 ≤ s.statusReplicas)
+    (nw : Option RS) (cOlds : List RS) (cWrites : List Write) (toAdd : Int) (allRSs : List RS)
+    (hc : ∀ r ∈ cOlds, Q r) (hn : ∀ r, nw = some r → Q r) (ha : ∀ r ∈ allRSs, Q r) :
+    (∀ r ∈ (distribute s nw cOlds cWrites toAdd allRSs).olds, Q r) ∧
+    (∀ r, (distribute s nw cOlds cWrites toAdd allRSs).new = some r → Q r) := by
+  have h0 : 0 ≤ s.replicas + maxSurgeV s := by omega
+  unfold distribute
+  simp only []
+  have hsorted : ∀ r ∈ (if toAdd > 0 then sortBy bySizeNewer allRSs
+      else if toAdd < 0 then sortBy bySizeOlder allRSs else allRSs), Q r := by
+    split
+    · exact all_sortBy ha
+    · split
+      · exact all_sortBy ha
+      · exact ha
+  split
+  · exact ⟨hc, hn⟩
+  · rename_i plan added hpl
+    have hplan := proportionLoop_plan s toAdd hR hs hst _ 0 plan added hsorted (fun h => by omega) hpl
+    have hplan' : ∀ p ∈ (match plan with
+        | [] => []
+        | (r, n) :: rest =>
+          if toAdd != 0 then (r, if n + (toAdd - added) < 0 then 0 else n + (toAdd - added)) :: rest
+          else (r, n) :: rest), Q p.1 ∧ 0 ≤ p.2 := by
+      cases plan with
+      | nil => intro p hp; simp at hp
+      | cons x rest =>
+        obtain ⟨r, n⟩ := x
+        have hx := hplan (r, n) (by simp)
+        simp only []
+        split
+        · intro p hp
+          simp only [List.mem_cons] at hp
+          rcases hp with e | e
+          · rw [e]; refine ⟨hx.1, ?_⟩
+            simp only []; split <;> omega
+          · exact hplan p (by simp [e])
+        · exact hplan
+    have hup := updateLoop_Q s h0 _ hplan'
+    have hsp := splitNew_mem (updateLoop s (match plan with
+        | [] => []
+        | (r, n) :: rest =>
+          if toAdd != 0 then (r, if n + (toAdd - added) < 0 then 0 else n + (toAdd - added)) :: rest
+          else (r, n) :: rest)).1
+    constructor
+    · exact append_all (fun r hr => hup r (hsp.2 r hr)) (fun r hr => hc r (mem_inactive hr))
+    · intro r hr
+      split at hr
+      · rename_i x hx
+        cases hr
+        exact hup r (hsp.1 r hx)
+      · exact hn r hr
+
+theorem active_Q {l : List RS} (h : ∀ r ∈ l, Q r) : ∀ r ∈ active l, Q r := fun r hr => h r (mem_active hr)
+
+theorem scaleProportional_Q (s : State) (hR : 0 ≤ s.replicas) (hs : 0 ≤ maxSurgeV s) (hst : 0 ≤ s.statusReplicas)
+    (nw : Option RS) (olds : List RS) (hq : ∀ r ∈ olds, Q r) (hn : ∀ r, nw = some r → Q r) :
+    (∀ r ∈ (scaleProportional s nw olds).olds, Q r) ∧
+    (∀ r, (scaleProportional s nw olds).new = some r → Q r) := by
+  have h0 : 0 ≤ s.replicas + maxSurgeV s := by omega
+  unfold scaleProportional
+  simp only []
+  generalize (if s.replicas > 0 then s.replicas else 0) -
+    sumSpec (active (sortBy byCreationDesc olds ++ nw.toList)) = toAdd
+  have hc := fun m => cleanup_Q s h0 olds m hq
+  split
+  · split
+    · exact ⟨hc _, hn⟩
+    · exact distribute_Q s hR hs hst nw _ _ _ _ (hc _) hn (active_Q (append_all (hc _) (toList_Q hn)))
+  · exact distribute_Q s hR hs hst nw _ _ _ _ hq hn
+      (active_Q (append_all (all_sortBy hq) (toList_Q hn)))
+
+theorem scale_Q (s : State) (hR : 0 ≤ s.replicas) (hs : 0 ≤ maxSurgeV s) (hst : 0 ≤ s.statusReplicas)
+    (nw : Option RS) (olds : List RS) (hq : ∀ r ∈ olds, Q r) (hn : ∀ r, nw = some r → Q r) :
+    (∀ r ∈ (scale s nw olds).olds, Q r) ∧ (∀ r, (scale s nw olds).new = some r → Q r) := by
+  have h0 : 0 ≤ s.replicas + maxSurgeV s := by omega
+  unfold scale
+  split
+  · rename_i r hf
+    have hr : Q r := by
+      rcases findActiveOrLatest_mem nw olds r hf with e | e
+      · exact hq r e
+      · exact hn r e
+    split
+    · exact ⟨hq, hn⟩
+    · have hr' := Q_scaleAndRecord s h0 r s.replicas hR hr
+      simp only []
+      split
+      · refine ⟨hq, ?_⟩
+        intro x hx; simp only [Option.some.injEq] at hx; rw [← hx]; exact hr'
+      · exact ⟨replaceIdx_Q _ hr' olds hq, hn⟩
+  · split
+    · refine ⟨?_, hn⟩
+      exact append_all (scaleAllTo_Q s h0 0 (by omega) _ (active_Q (all_sortBy hq)))
+        (fun r hr => hq r (mem_inactive hr))
+    · exact scaleProportional_Q s hR hs hst nw olds hq hn
+
+
+theorem getNewRS_false_Q (s : State) (hn : ∀ r, s.new = some r → Q r) :
+    (∀ r, (getNewRS s false).1 = some r → Q r) ∧ optPods (getNewRS s false).1 = optPods s.new := by
+  unfold getNewRS
+  cases h : s.new with
+  | none => simp [optPods]
+  | some r0 =>
+    have := hn r0 h
+    constructor
+    · intro r hr
+      simp only [Option.some.injEq] at hr
+      rw [← hr]
+      obtain ⟨q1, q2⟩ := this
+      rw [rsOk_iff] at q1
+      exact ⟨by rw [rsOk_iff]; exact q1, by simpa [annoOk] using q2⟩
+    · simp [optPods]
+
+theorem Q_all_of_inv (s : State) (h : inv s = true) :
+    (∀ r ∈ s.olds, Q r) ∧ (∀ r, s.new = some r → Q r) := by
+  obtain ⟨_, _, _, h4, h5, _, h7, h8⟩ := inv_elim s h
+  exact ⟨fun r hr => ⟨h4 r hr, h7 r hr⟩, fun r hr => ⟨h5 r hr, h8 r hr⟩⟩
+
+theorem inv_of_parts (s t : State) (h : inv s = true) (e1 : t.replicas = s.replicas)
+    (e2 : t.maxSurge = s.maxSurge) (e3 : t.maxUnavailable = s.maxUnavailable)
+    (ho : ∀ r ∈ t.olds, Q r) (hn : ∀ r, t.new = some r → Q r) (hst : 0 ≤ t.statusReplicas) :
+    inv t = true := by
+  obtain ⟨h1, h2, h3, _⟩ := inv_elim s h
+  exact inv_intro _ (by rw [e1]; exact h1) (by rw [e2]; exact h2) (by rw [e3]; exact h3)
+    (fun r hr => (ho r hr).1) (fun r hr => (hn r hr).1) hst
+    (fun r hr => (ho r hr).2) (fun r hr => (hn r hr).2)
+
+theorem statusSum_nonneg (s : State) (h : inv s = true) : 0 ≤ sumPods s.olds + optPods s.new := by
+  obtain ⟨_, _, _, h4, h5, _, _, _⟩ := inv_elim s h
+  have := sumPods_nonneg h4
+  cases hn : s.new with
+  | none => simp only [optPods]; omega
+  | some r => have := (rsOk_iff r).mp (h5 r hn); simp only [optPods]; omega
+
+theorem syncScale_parts (s : State) (h : inv s = true) :
+    (∀ r ∈ (syncScale s).olds, Q r) ∧ (∀ r, (syncScale s).new = some r → Q r) ∧
+    0 ≤ (syncScale s).statusReplicas := by
+  obtain ⟨h1, _, _, _, _, h6, _, _⟩ := inv_elim s h
+  obtain ⟨q1, q2⟩ := Q_all_of_inv s h
+  obtain ⟨g1, g2⟩ := getNewRS_false_Q s q2
+  have hs0 := maxSurgeV_nonneg s h
+  have sc := scale_Q s h1 hs0 h6 (getNewRS s false).1 s.olds q1 g1
+  refine ⟨sc.1, sc.2, ?_⟩
+  simp only [syncScale]
+  split
+  · exact h6
+  · rw [g2]; exact statusSum_nonneg s h
+
+/-- **`I` is preserved by every sync** (rolling path, scaling path, status-only path). -/
+theorem inv_post (s : State) (h : inv s = true) : inv (post s) = true := by
+  by_cases hsc : inScope s = true
+  · exact inv_post_rolling s h hsc
+  · obtain ⟨q1, q2⟩ := Q_all_of_inv s h
+    obtain ⟨g1, g2⟩ := getNewRS_false_Q s q2
+    obtain ⟨p1, p2, p3⟩ := syncScale_parts s h
+    apply inv_of_parts s (post s) h rfl rfl rfl
+    all_goals (unfold post sync)
+    all_goals (
+      by_cases hd : s.deleting = true
+      · simp only [hd, if_true]
+        first
+          | exact q1
+          | exact g1
+          | (rw [g2]; exact statusSum_nonneg s h)
+      · simp only [hd, Bool.false_eq_true, if_false]
+        by_cases hp : s.paused = true
+        · simp only [hp, if_true]
+          first | exact p1 | exact p2 | exact p3
+        · simp only [hp, Bool.false_eq_true, if_false]
+          by_cases he : isScalingEvent s = true
+          · simp only [he, if_true]
+            first | exact p1 | exact p2 | exact p3
+          · exfalso; apply hsc
+            simp only [inScope, Bool.and_eq_true, Bool.not_eq_true']
+            exact ⟨⟨by simpa using hd, by simpa using hp⟩, by simpa using he⟩)
 
 end RV.DepSync
